@@ -157,3 +157,11 @@ Lemma census_complete :
                      "simpson"; "simpson2d"; "counts_coincidences"; "counts_singles_signal"; "counts_singles_idler"; "hom_rate"; "SPDC::hom_rate_series"] = true
   /\ length par_sites = 21.
 Proof. vm_compute. split; reflexivity. Qed.
+
+(* pinned: which range evaluators have a point value that is a quadrature (2-D: always parallel; 1-D: parallel from 128 slices on) *)
+Lemma quadrature_table_pinned :
+  range_quadrature =
+  [("jsa_range", (false, true)); ("jsa_normalized_range", (false, true)); ("jsi_range", (false, true)); ("jsi_normalized_range", (false, true));
+   ("jsi_singles_range", (true, true)); ("jsi_singles_idler_range", (true, true)); ("jsi_singles_normalized_range", (true, true));
+   ("jsi_singles_idler_normalized_range", (true, true))]%string.
+Proof. reflexivity. Qed.
